@@ -62,12 +62,17 @@ def _gvt_names(f, P):
     for p in f.params:
         if "gvt" in p["name"]:
             names.add(p["name"])
-    for n in f.walk():
-        if n.k == "VarDecl" and n.children:
-            src = X.strip(n.children[0])
-            if src.k == "DeclRefExpr" and src.name == "fossil_gvt_current":
-                names.add(n.name)
     names.add("fossil_gvt_current")
+    # locals copied (possibly in several steps) from one of those
+    changed = True
+    while changed:
+        changed = False
+        for n in f.walk():
+            if n.k == "VarDecl" and n.children and n.name not in names:
+                src = X.strip(n.children[0])
+                if src.k == "DeclRefExpr" and src.name in names:
+                    names.add(n.name)
+                    changed = True
     return names
 
 
